@@ -116,6 +116,39 @@ theorem C49_witness_list_cache :
     (doAction .queryRename [['a'], ['n']] r1).rawQuery = ['a','&','b','=','2'] ∧
     (parseQuery (doAction .queryRename [['a'], ['n']] r1).rawQuery).map (·.1) = [['a'], ['b']] := by decide
 
+/-! ### mod_header `%variable` templates -/
+
+/-- **The tokenizer is total**: cutting a header-value template into literal / escaped / variable pieces loses and
+    invents nothing (the pieces concatenate to the template) and produces no empty piece — for every template. -/
+theorem C49_template_split_total (s : Str) :
+    (splitTemplate s).flatten = s ∧ ∀ p ∈ splitTemplate s, p ≠ [] :=
+  ⟨split_flatten s.length s (Nat.le_refl _), split_nonempty s.length s⟩
+
+/-- **Every variable of the source table is ONE token**, alone, between literal text, before a `;`, and twice in a
+    row (kernel evaluation over `mod_header.VariableHandlers` as extracted from the current source: a name with a
+    character outside a-z 0-9 _ would fail here, and a tokenizer that stops at digits is refuted by the correspondence
+    run on exactly these templates). -/
+theorem C49_variables_single_token :
+    ∀ v ∈ C49.headerVariables,
+      splitTemplate ('%' :: v.toList) = ['%' :: v.toList] ∧
+      splitTemplate (['a', '-'] ++ '%' :: v.toList ++ ['-', 'b']) = [['a', '-'], '%' :: v.toList, ['-', 'b']] ∧
+      splitTemplate ('%' :: v.toList ++ ';' :: '%' :: v.toList) = ['%' :: v.toList, [';'], '%' :: v.toList] ∧
+      templateLoads C49.headerVariables ('%' :: v.toList) = true := by decide
+
+/-- every variable listed in docs/en_us/modules/mod_header/mod_header.md is in the source table, hence loads -/
+theorem C49_documented_variables_accepted :
+    ∀ v ∈ C49.headerVariablesDocumented, C49.headerVariables.contains v = true ∧
+      templateLoads C49.headerVariables (['x', '='] ++ '%' :: v.toList ++ [';']) = true := by decide
+
+/-- escapes and malformed references: `%%` is literal, a lone `%` and an unknown name are refused -/
+theorem C49_template_examples :
+    splitTemplate "a%%b%bfe_vip9-%".toList = ["a".toList, "%%b".toList, "%bfe_vip9".toList, "-".toList, "%".toList] ∧
+    templateLoads C49.headerVariables "100%%".toList = true ∧
+    templateLoads C49.headerVariables "a%".toList = false ∧
+    templateLoads C49.headerVariables "%bfe_ssl_ja".toList = false ∧
+    expandTemplate (fun n => if n == "bfe_vip".toList then some "9.8.7.6".toList else none) "%%x-%bfe_vip;".toList
+      = "%x-9.8.7.6;".toList := by decide
+
 /-! ### mod_redirect -/
 
 theorem C49_effect_url_set (p host path q : Str) : doRedirect .urlSet p host path q = p := rfl
